@@ -24,6 +24,7 @@ type Engine struct {
 	eventSigs map[string]*eventSig
 	closable  map[string]bool // channels closed somewhere in the program
 	ForceSafety bool // prove panic-freedom in every unit (property-level option)
+	sinceCache  map[[2]string]bool
 	wantSpawn bool // eventsFor matches 'go' events instead of call/ret events
 	fieldTargets    map[string][]*ssa.Function
 	fieldTargetsBad map[string]bool
